@@ -79,7 +79,8 @@ func (p *Parser) parseHeader(data []byte) (header *parser.PacketHeader, buf []by
 			return
 		}
 
-		attachments, err := strconv.ParseUint(string(data[:i]), 10, 0)
+		// The count must fit in a non-negative int (31 bits so that it does on every platform).
+		attachments, err := strconv.ParseUint(string(data[:i]), 10, 31)
 		if err != nil {
 			return nil, nil, "", err
 		}
